@@ -258,6 +258,24 @@ func c02Scenarios(tier string) []*Scenario {
 			scs = append(scs, sc)
 		}
 	}
+	scs = append(scs, c02MainScenarios(k)...)
+	return scs
+}
+
+// c02MainScenarios: the same for the main process of `process-compose run a` (it runs with exit_on_end forced on;
+// its restart policy, back-off and max_restarts are the configured ones).
+func c02MainScenarios(k int) []*Scenario {
+	var scs []*Scenario
+	for _, pol := range []string{"always", "on_failure"} {
+		for _, mx := range []int{0, 1, 2} {
+			for _, codes := range [][]int{{1, 1, 1, 1}, {1, 0}, {1, 1, 0}} {
+				sc := c02Scenario(pol, mx, 1, codes, "none", k)
+				sc.ID += "-main"
+				sc.Main = "a"
+				scs = append(scs, sc)
+			}
+		}
+	}
 	return scs
 }
 
